@@ -90,10 +90,9 @@ theorem unvalidated_are_the_rows_without_entry :
     ∀ r ∈ rows, (r.2.2 = none ↔ (r.1, r.2.1) ∈ unvalidated) := by
   decide +kernel
 
-/-- every key of a `@constraint_params` table names a parameter of the decorated function — except the two keys of
-    `add_mlcl_constraint` spelt with a hyphen (`"must-link"`, `"cannot-link"`), which therefore validate nothing -/
-theorem decorator_keys_name_parameters :
-    Gen.Constraints.deadKeys = [("add_mlcl_constraint", "must-link"), ("add_mlcl_constraint", "cannot-link")] := by
+/-- every key of a `@constraint_params` table names a parameter of the decorated function (until /repo commit 37cb7b8
+    the keys `"must-link"`, `"cannot-link"` of `add_mlcl_constraint`, spelt with a hyphen, validated nothing) -/
+theorem decorator_keys_name_parameters : Gen.Constraints.deadKeys = [] := by
   decide +kernel
 
 /-- every string set used by a table is either defined in the repository or one of the listed scikit-learn sets -/
